@@ -40,6 +40,8 @@ var nvParsers = []nvParser{
 	{"json:load-string/exact-integers", func(a string) string { return "(json:load-string " + a + " :exact-integers true)" }},
 	{"json:load-bytes", func(a string) string { return "(json:load-bytes (to-bytes " + a + "))" }},
 	{"base64:decode", func(a string) string { return "(base64:decode " + a + ")" }},
+	{"base64:decode/bytes", func(a string) string { return "(base64:decode (to-bytes " + a + "))" }},
+	{"to-string/bytes", func(a string) string { return "(to-string (to-bytes " + a + "))" }},
 	{"regexp:regexp-compile", func(a string) string { return "(regexp:regexp-match? (regexp:regexp-compile " + a + ") \"abcd 12.5\")" }},
 	{"s:regexp", func(a string) string { return "(s:validate (s:deftype \"nv\" s:string (s:regexp " + a + ")) \"abcd\")" }},
 	{"format-string", func(a string) string { return "(format-string " + a + " 1 \"x\")" }},
@@ -61,7 +63,7 @@ var nvBases = []string{
 	"(+ 1 (car '(2 3)))", "'(a \"s\" #^(+ % 1) ; c\n b)", "pkg:name",
 }
 
-var nvAlphabet = []byte("0123456789:-+.TZz eE{}[]\"\\,()%/'#\x00\xff")
+var nvAlphabet = []byte("0123456789:-+.TZz eE{}[]\"\\,()%/'#=aA_\n\x00\xff")
 
 func nvEdits(base []byte, pos int) [][]byte {
 	var out [][]byte
